@@ -98,6 +98,6 @@ func init() {
 		Run:         run,
 		MinCounters: []string{"checkpoints_archived:built", "checkpoints_archived:re-estimated", "confirmations_archived", "replay_fork", "replay_realtx", "control_bad_sig_jailed", "prune_events", "prune_legit_jailings"},
 		Workers:     16,
-		TimeoutS:    900,
+		TimeoutS:    3600, // generous: the watchdog only guards against hangs (a 900-block history is ~25 s CPU)
 	})
 }
